@@ -1,6 +1,6 @@
 from collections.abc import Callable
 from copy import deepcopy
-from types import EllipsisType, GenericAlias
+from types import EllipsisType, GenericAlias, MappingProxyType
 from typing import (
     Any,
     ClassVar,
@@ -88,6 +88,28 @@ class StateMeta(type):
         state_type.__match_args__ = state_type.__slots__  # pyright: ignore[reportAttributeAccessIssue]
 
         return state_type
+
+
+def _deepcopy_value(
+    value: Any,
+    memo: dict[int, Any] | None,
+) -> Any:
+    # validated mappings are stored as mappingproxy which can't be copied by deepcopy
+    match value:
+        case MappingProxyType() as mapping:
+            return {
+                _deepcopy_value(key, memo): _deepcopy_value(element, memo)
+                for key, element in mapping.items()
+            }
+
+        case tuple() as elements:
+            return tuple(_deepcopy_value(element, memo) for element in elements)
+
+        case frozenset() as elements:
+            return frozenset(_deepcopy_value(element, memo) for element in elements)
+
+        case other:
+            return deepcopy(other, memo)
 
 
 _types_cache: WeakValueDictionary[
@@ -240,7 +262,7 @@ class State(metaclass=StateMeta):
     ) -> Self:
         copy: Self = self.__class__(
             **{
-                key: deepcopy(
+                key: _deepcopy_value(
                     value,
                     memo,
                 )
